@@ -1,7 +1,7 @@
 #!/bin/bash
 # usage: tools/seed_eval.sh <seed-id> <property> <worktree> <demo go-test pkg> <demo -run regexp> [tier]
 # Confirms a seeded change in its scratch worktree (build, pinned suite, demo fails with / passes without),
-# then applies it to /repo, runs the property's check, and undoes it. Results -> /verif/seeded/<seed-id>/.
+# then runs the property's check on the scratch worktree with the patch applied (VERIF_REPO), leaving /repo alone. Results -> /verif/seeded/<seed-id>/.
 set -u
 sid=$1; prop=$2; wt=$3; pkg=${4:-}; run=${5:-}; tier=${6:-quick}
 if [ -z "$pkg" ]; then
@@ -14,6 +14,8 @@ out=/verif/seeded/$sid; mkdir -p $out
 cp $wt/_mutation/patch.diff $out/patch.diff
 for f in $wt/_mutation/*; do case $f in *patch.diff) ;; *) cp -r $f $out/;; esac; done
 log=$out/confirm.log; : > $log
+# bring the scratch worktree to the current /repo HEAD (fixes committed since the worktree was made)
+git -C $wt checkout -q --detach $(git -C /repo rev-parse HEAD) 2>> $log || echo "could not move the worktree to /repo HEAD" >> $log
 cd $wt
 # place the demo
 while read -r line; do :; done < /dev/null
@@ -29,10 +31,12 @@ go test -vet=off -count=1 -run "$run" $pkg > $out/demo_with_patch.log 2>&1; rc1=
 git apply -R _mutation/patch.diff
 echo "== demo without patch (must PASS)" >> $log
 go test -vet=off -count=1 -run "$run" $pkg > $out/demo_without_patch.log 2>&1; rc0=$?; echo "demo-without-patch rc=$rc0" >> $log
-echo "== check $prop on /repo with the patch" >> $log
-cd /repo && git apply $out/patch.diff || { echo "patch does not apply to /repo" >> $log; exit 2; }
-(cd /verif && ./bin/gosymx check $prop --tier $tier) > $out/check_with_patch.log 2>&1; crc=$?
-git -C /repo checkout -- . 
+echo "== check $prop on the scratch worktree with the patch (VERIF_REPO=$wt; /repo is not touched)" >> $log
+cd $wt && git apply _mutation/patch.diff || { echo "patch does not re-apply" >> $log; exit 2; }
+rm -f $wt/$dpath
+(cd /verif && VERIF_REPO=$wt VERIF_EVIDENCE=$out/evidence VERIF_WORKTAG=-seed ./bin/gosymx check $prop --tier $tier) > $out/check_with_patch.log 2>&1; crc=$?
+git -C $wt apply -R _mutation/patch.diff
+rm -rf $out/evidence/replays
 echo "check rc=$crc" >> $log
 grep -E "^(VIOLATION|KNOWN-FINDING|INCONCLUSIVE)|tier=" $out/check_with_patch.log | cut -c1-300 >> $log
 tail -12 $log
